@@ -4,6 +4,17 @@ from .. import ir
 
 
 class CJumpPass(InstructionPass):
+    """Replace conditional jumps on two constants by the jump taken."""
+
+    folded = 0
+
+    def on_function(self, function):
+        self.folded = 0
+        super().on_function(function)
+        if self.folded:
+            # Blocks only reachable over the removed edges are gone now:
+            function.delete_unreachable()
+
     def on_instruction(self, instruction):
         if (
             isinstance(instruction, ir.CJump)
@@ -21,10 +32,17 @@ class CJumpPass(InstructionPass):
                 "!=": operator.ne,
             }
             if mp[instruction.cond](a, b):
-                label = instruction.lab_yes
+                label, other = instruction.lab_yes, instruction.lab_no
             else:
-                label = instruction.lab_no
+                label, other = instruction.lab_no, instruction.lab_yes
             block = instruction.block
             block.remove_instruction(instruction)
             block.add_instruction(ir.Jump(label))
             instruction.delete()
+            self.folded += 1
+
+            # The edge to the other block no longer exists, its phi nodes
+            # must not keep a value for it:
+            if other is not label:
+                for phi in other.phis:
+                    phi.del_incoming(block)
